@@ -562,6 +562,8 @@ class CHECK(Check):
                         'join x targets, wrap x order x limit; 29 DML/DDL statements; every statement on every database; distinct_nontrivial = distinct SQL texts'}
 
     def describe_case(self, case):
+        if case[0] == 'script':
+            return {'kind': 'script', 'name': case[1], 'statements': dict(SCRIPTS)[case[1]]}
         if case[0] == 'dml':
             return {'kind': 'dml', 'sql': dict(DML)[case[1]]}
         q = build(dict(zip(FEATURES, case[1])))
